@@ -109,6 +109,28 @@ def handle : List String → String
       | none => "true"
       | some clause => s!"false {clause}"
     | _, _, _, _, _ => "bad-op"
+  /- timed <total|perread> <timeout> <start> <limit|-> <sched>: the header read with its clock;
+     sched = arrivals `time:hex` (`,`-separated, `~` = none; the peer then stays silent, connection open) -/
+  | ["timed", pol, to, st, lim, sched] =>
+    let pol? : Option Deadline := if pol = "total" then some .total else if pol = "perread" then some .perRead else none
+    let lim? : Option (Option Nat) := if lim = "-" then some none else (natOf lim).map some
+    let sched? : Option (List Arr) := (splitList sched).mapM fun e =>
+      match e.splitOn ":" with
+      | [t, hx] => do
+        let t ← natOf t
+        let d ← bytesOfHex hx
+        pure (⟨t, d⟩ : Arr)
+      | _ => none
+    match pol?, natOf to, natOf st, lim?, sched? with
+    | some pol, some to, some st, some lim, some sched =>
+      let d := readTimed pol to st lim sched
+      match d.res with
+      | .accepted h rest =>
+        s!"accepted t={d.time} rest={hexOfBytes rest} ra={encSel (remoteSel (.ok h))} la={encSel (localSel (.ok h))}"
+      | .refused e => s!"refused t={d.time} {encCls e.cls}"
+      | .timedOut => s!"timedout t={d.time}"
+      | .crashed => "panic"
+    | _, _, _, _, _ => "bad-op"
   | _ => "bad-op"
 
 end C08
